@@ -25,7 +25,8 @@ Exprs ==
     RCat(RCap(GA, RStar(ra)), RCap(GB, RStar(RAlt(ra, rb)))),           \* (?P<a>a*)(?P<b>(a|b)*)       greedy split
     RCat(RCap(GA, RAlt(ra, RCat(ra, rb))), RCap(GB, ROpt(rb))),          \* (?P<a>a|ab)(?P<b>b?)         leftmost-first, not longest
     RCat(RBol, RCat(RCap(GA, RPlus(RNCls(<<120>>))), REol)),         \* ^(?P<a>[^x]+)$
-    RCat(RCap(GA, RAny), RCat(rx, RCap(GB, RAny))) }                  \* (?P<a>.)x(?P<b>.)
+    RCat(RCap(GA, RAny), RCat(rx, RCap(GB, RAny))),
+    RCat(RGrp(RAlt(ra, rb)), RCap(GA, rx)) }                          \* (a|b)(?P<a>x)               an unnamed group shifts the index                  \* (?P<a>.)x(?P<b>.)
   \cup (IF Pools = "full"
           THEN { RCat(RCap(GA, ROpt(ra)), RCap(GB, ROpt(ra))),                         \* (?P<a>a?)(?P<b>a?)
                  RStar(RCat(RCap(GA, ra), ROpt(RCap(GB, rb)))),                        \* ((?P<a>a)(?P<b>b)?)*   b keeps an earlier iteration's value
